@@ -326,7 +326,7 @@ impl Property for C16 {
         vec![("history", 1)]
     }
     fn budget(&self) -> (u64, u64) {
-        (20_000, 800_000)
+        (60_000, 1_500_000)
     }
     fn rule(&self) -> &'static str {
         "histories of 4-20 steps of {create-db, first/later write of 5 keys, remove, snapshot of a subset of 1-4 databases (incremental/reclaiming), restart by kill, restart by SIGINT (real safe_shutdown), kill armed at the k-th (1-25) next mutating disk call before/after it} ending with a restart; after every step the records written since the previous step are attributed (through the writing lifetime's own id maps) to a database and key name; after every restart either the log is gone and last_op_time = 0, or every surviving record must decode through the restarted node's id maps to the same names; database ids and key ids must be pairwise distinct at every quiet point. Crash points are sampled (k random), not enumerated per history. Non-trivial: a restart found a non-empty log and decoded it, or discarded it. distinct = distinct programs."
